@@ -9,7 +9,7 @@ From Semver Require Import Version Range RParse.
 
 Inductive form := FBare | FEq | FGt | FGte | FLt | FLte | FTilde | FTildeGt | FCaret.
 Inductive comp := Comp (f : form) (p : partial_t) | Garbage.
-Inductive alt := AHyphen (lo : option partial_t) (hi : partial_t) | ASet (cs : list comp).
+Inductive alt := AHyphen (lo hi : partial_t) | ASet (cs : list comp).
 Definition ast := list alt.
 
 Inductive cop := CGt | CGte | CLt | CLte | CEq.
@@ -80,12 +80,8 @@ Definition hyphen_upper_c (p : partial_t) : list comparator :=
   | Some M, Some m, None => [(CLt, vz M (m + 1) 0)]
   | Some M, Some m, Some q => [(CLte, vfull M m q p)]
   end.
-(** [A - B]; the loose form [ - B] has no lower part except that [ - x] is [*] *)
-Definition desugar_hyphen (lo : option partial_t) (hi : partial_t) : list comparator :=
-  match lo with
-  | Some l => hyphen_lower l ++ hyphen_upper_c hi
-  | None => match hyphen_upper_c hi with [] => ANY | u => u end
-  end.
+(** [A - B] *)
+Definition desugar_hyphen (lo hi : partial_t) : list comparator := hyphen_lower lo ++ hyphen_upper_c hi.
 
 Fixpoint real_comps (cs : list comp) : list (form * partial_t) :=
   match cs with
@@ -132,7 +128,7 @@ Definition partial_dom (p : partial_t) : Prop :=
 Definition comp_dom (c : comp) : Prop := match c with Comp _ p => partial_dom p | Garbage => True end.
 Definition alt_dom (a : alt) : Prop :=
   match a with
-  | AHyphen lo hi => match lo with Some l => partial_dom l | None => True end /\ partial_dom hi
+  | AHyphen lo hi => partial_dom lo /\ partial_dom hi
   | ASet cs => Forall comp_dom cs
   end.
 Definition version_dom (v : version) : Prop :=
